@@ -46,6 +46,12 @@ func c03Behaviours() []c03Behaviour {
 				c.RespMsgs = append(c.RespMsgs, c.RespMsgs[0])
 			}
 		}},
+		{"ok-two-messages-where-one-is-due", func(c *mxCall, shape string) {
+			// a backend that (wrongly) answers a method with a single response with two messages
+			if shape == "unary" || shape == "client" {
+				c.RespMsgs = append(c.RespMsgs, MkMsg(`{"name":"second","num":2}`))
+			}
+		}},
 		{"error-before-messages", func(c *mxCall, _ string) { c.RespMsgs, c.End = nil, errEnd }},
 		{"error-trailers-only", func(c *mxCall, _ string) { c.RespMsgs, c.End, c.TrailersOnly = nil, errEnd, true }},
 		{"error-after-messages", func(c *mxCall, shape string) {
